@@ -111,7 +111,7 @@ impl Report {
                 self.samples.push(v);
             }
         }
-        self.hash ^= other.hash;
+        self.hash = self.hash.wrapping_add(other.hash);
         self.notes.extend(other.notes);
         self.tool_errors.extend(other.tool_errors);
     }
@@ -120,13 +120,33 @@ impl Report {
 /// fold the bit patterns of an observation into the report's order independent hash
 pub fn hash_obs<T: crate::sc::Sc>(rep: &mut Report, c: &Option<Vec<T>>, r: &Option<Vec<T>>, j: &Option<Vec<T>>) {
     let mut h: u64 = 0xcbf29ce484222325;
-    for part in [c, r, j] {
+    // under a poisoning allocator an element that still carries the fill pattern was never written
+    let mode = crate::POISON_MODE.load(std::sync::atomic::Ordering::Relaxed);
+    let pattern: Option<u64> = match (mode, T::NAME) {
+        (1, "f64") => Some(0x5A5A_5A5A_5A5A_5A5A),
+        (1, _) => Some(0x5A5A_5A5A),
+        (2, "f64") => Some(u64::MAX),
+        (2, _) => Some(0xFFFF_FFFF),
+        _ => None,
+    };
+    for (pi, part) in [c, r, j].into_iter().enumerate() {
         h = h.wrapping_mul(0x100000001b3) ^ 0xff;
         if let Some(v) = part {
+            let mut unwritten = 0usize;
             for x in v {
                 h = (h ^ x.bits()).wrapping_mul(0x100000001b3);
+                if Some(x.bits()) == pattern {
+                    unwritten += 1;
+                }
+            }
+            if pattern.is_some() {
+                let what = ["coefficients", "residuals", "jacobian"][pi];
+                rep.check("C10", unwritten == 0, 0.0, || {
+                    serde_json::json!({"what": format!("{} of {} elements of the returned {} carry the allocator's fill pattern: never written", unwritten, v.len(), what),
+                                       "scalar": T::NAME, "poison_mode": mode})
+                });
             }
         }
     }
-    rep.hash ^= h;
+    rep.hash = rep.hash.wrapping_add(h);
 }
